@@ -40,15 +40,35 @@ type c15GenSlot struct {
 
 type c15GenState struct {
 	slots []c15GenSlot
+	max   int // bound on the number of stream slots (0 = c15MaxSlots)
 	pings int
 	sets  int
 	blk   bool
 }
 
+// c15MaxSlots bounds the number of streams of a case in the parts that start
+// from the empty connection. Parts that start from a seeded prefix use
+// c15SeedSlots(limit) instead.
 const c15MaxSlots = 3
 
+// c15SeedSlots is the stream bound of the seeded parts for an advertised limit
+// of L streams: L streams whose handlers still run after the client has reset
+// them (every handler slot taken, every stream slot free again), L live
+// streams on top of them (the handler queue at its fullest), and one more
+// stream beyond the limit; never less than c15MaxSlots.
+func c15SeedSlots(limit int) int {
+	if n := 2*limit + 1; n > c15MaxSlots {
+		return n
+	}
+	return c15MaxSlots
+}
+
 func c15GenNext(st *c15GenState, bad []string, blocking bool, emit func(ev string, apply func(*c15GenState))) {
-	if len(st.slots) < c15MaxSlots {
+	max := st.max
+	if max == 0 {
+		max = c15MaxSlots
+	}
+	if len(st.slots) < max {
 		emit("H", func(s *c15GenState) { s.slots = append(s.slots, c15GenSlot{kind: "H", ended: true}) })
 		emit("Ho", func(s *c15GenState) { s.slots = append(s.slots, c15GenSlot{kind: "Ho"}) })
 		for _, k := range bad {
@@ -103,6 +123,11 @@ func (st *c15GenState) clone() *c15GenState {
 // c15Gen yields every statically legal event sequence of length 1..depth,
 // shortest first.
 func c15Gen(cfg string, depth int, bad []string, blocking bool, prefix []string, yield func(c15Case) bool) bool {
+	return c15GenSlots(cfg, depth, 0, bad, blocking, prefix, yield)
+}
+
+// c15GenSlots is c15Gen with an explicit bound on the number of stream slots.
+func c15GenSlots(cfg string, depth, maxSlots int, bad []string, blocking bool, prefix []string, yield func(c15Case) bool) bool {
 	for n := 1; n <= depth; n++ {
 		var rec func(st *c15GenState, evs []string) bool
 		rec = func(st *c15GenState, evs []string) bool {
@@ -120,7 +145,7 @@ func c15Gen(cfg string, depth int, bad []string, blocking bool, prefix []string,
 			})
 			return ok
 		}
-		st := &c15GenState{}
+		st := &c15GenState{max: maxSlots}
 		// replay the prefix on the generator state
 		for _, pe := range prefix {
 			found := false
@@ -624,7 +649,7 @@ func c15RunCase(c *vx.Ctx, w *vx.W, cs c15Case) {
 func TestVerif_C15(t *testing.T) {
 	vx.Run(t, "C15", func(c *vx.Ctx) {
 		depth := vx.Pick(c, 3, 5)
-		c.Rule(fmt.Sprintf("every statically legal sequence of 1..%d events (shortest first) over the menu {H (request, END_STREAM), Ho (request with open body), Hb:k (malformed request), and per stream slot i<=%d: R_i client RST_STREAM, W_i handler Write+Flush, F_i handler returns, P_i handler panics, D_i DATA+END_STREAM, T_i trailer-style HEADERS (legal only while the request body is open), X_i a second request HEADERS on the same stream id (id re-use), PING (<=2), SETTINGS (<=2)}, for MAX_CONCURRENT_STREAMS 1 and 2 (default RFC 9218 scheduler; the other three schedulers one level shallower), plus the same menu (incl. BLK/UNB: the client stops/resumes reading) explored %d levels deep from six seeded prefixes, plus every malformed-request kind in every context of <=%d events before and <=1 after; each case runs on a fresh real server in its own synctest bubble, quiescence after every event; a case is non-trivial when all its events were applicable at run time (handler commands need a running handler)", depth, c15MaxSlots, vx.Pick(c, 3, 4), vx.Pick(c, 1, 2)))
+		c.Rule(fmt.Sprintf("every statically legal sequence of 1..%d events (shortest first) over the menu {H (request, END_STREAM), Ho (request with open body), Hb:k (malformed request), and per stream slot i<=%d: R_i client RST_STREAM, W_i handler Write+Flush, F_i handler returns, P_i handler panics, D_i DATA+END_STREAM, T_i trailer-style HEADERS (legal only while the request body is open), X_i a second request HEADERS on the same stream id (id re-use), PING (<=2), SETTINGS (<=2)}, for MAX_CONCURRENT_STREAMS 1 and 2 (default RFC 9218 scheduler; the other three schedulers one level shallower), plus the same menu (incl. BLK/UNB: the client stops/resumes reading) explored %d levels deep from seven seeded prefixes (there the stream bound is max(%d, 2*MAX+1): MAX handlers still running for streams the client has reset, MAX live streams queued behind them, one stream beyond the limit; one prefix is that saturated state itself, H H R1 R2 with MAX=2, so that a single handler return with two live queued requests is inside the bound), plus every malformed-request kind in every context of <=%d events before and <=1 after; each case runs on a fresh real server in its own synctest bubble, quiescence after every event; a case is non-trivial when all its events were applicable at run time (handler commands need a running handler)", depth, c15MaxSlots, vx.Pick(c, 3, 4), c15MaxSlots, vx.Pick(c, 1, 2)))
 		c.Assume("connection-specific header fields (connection, te!=trailers, transfer-encoding, keep-alive, proxy-connection, upgrade) are answered with an HTTP 4xx response instead of RST_STREAM; RFC 9113 §8.1.1 allows a response before closing the stream, so that is accepted as rejection (the handler must still never run)")
 		c.Assume("PING / SETTINGS acknowledgement is required at quiescence only while the server has neither closed the connection nor sent GOAWAY with an error code")
 		c.Assume("after the server has sent GOAWAY with an error code it discards every incoming frame (and closes the connection within a second); client RST_STREAMs sent after that point are not expected to take effect")
@@ -640,6 +665,7 @@ func TestVerif_C15(t *testing.T) {
 		for i, sdv := range []seed{
 			{"m1", []string{"H", "R1", "H"}, false},      // a handler runs for a reset stream, the next request is queued
 			{"m2", []string{"H", "H", "R1", "H"}, false}, // same with limit 2
+			{"m2", []string{"H", "H", "R1", "R2"}, false}, // every handler slot is held by the handler of a reset stream, every stream slot is free: the next MAX requests are all queued, then a handler returns
 			{"m1", []string{"Ho", "W1"}, false},          // response under way, request body still open
 			{"m2", []string{"Ho", "W1", "H"}, false},
 			{"m2-blk", []string{"BLK", "PING"}, true},     // client not reading: the server's writer is stuck in a flush
@@ -651,7 +677,7 @@ func TestVerif_C15(t *testing.T) {
 				if !yield(c15Case{Cfg: sdv.cfg, Ev: sdv.pre}) {
 					return
 				}
-				c15Gen(sdv.cfg, sd, core, sdv.blk, sdv.pre, yield)
+				c15GenSlots(sdv.cfg, sd, c15SeedSlots(int(c15ParseCfg(sdv.cfg).MaxStreams)), core, sdv.blk, sdv.pre, yield)
 			}, func(w *vx.W, cs c15Case) { c15RunCase(c, w, cs) })
 		}
 		c.Assume("while the harness does not read (events BLK…UNB) frames the server had already handed to its writer may surface later: the after-client-RST clause is not applied to resets sent in that window, and the at-quiescence clauses are evaluated after the harness has drained the connection again")
